@@ -405,6 +405,15 @@ func TestPropDiagnostics(t *testing.T) {
 			script = []world.AddCall{{Kind: "remote", Addr: w.Remotes[0].Addr}}
 		}
 		w.Script = script
+		if len(w.Remotes) >= 2 && rapid.Bool().Draw(t, "samefindings") {
+			// two packages about which the finder has exactly the same to say
+			for mi := range w.Remotes[1].Modules {
+				if mi < len(w.Remotes[0].Modules) && w.Remotes[0].Modules[mi].Diags != nil {
+					w.Remotes[1].Modules[mi].Diags = w.Remotes[0].Modules[mi].Diags
+				}
+			}
+			w.Script = append(w.Script, world.AddCall{Kind: "remote", Addr: w.Remotes[0].Addr}, world.AddCall{Kind: "remote", Addr: w.Remotes[1].Addr})
+		}
 		return DiagCase{World: w, Tracer: tracer}
 	})
 }
